@@ -517,3 +517,21 @@ def walkall_rule(chk, P, rid, only, floor):
         if not bad:
             chk.ok(rid, nl, None)
     chk.floor(rid.lower().replace("-", "_") + "_loops", n, floor)
+
+
+def control_conditions(fn, inst):
+    """(Guard, truth) for every branch edge the instruction's block is control dependent on (classic definition: the block post-dominates the edge's
+    target but not the branch).  Unlike conditions_at this also finds the two edges of `if (a && b) continue;` that both lead to the code after the if."""
+    out = []
+    X = inst.bb.id
+    pd = fn.pdom()
+    for b in fn.blocks:
+        t = b.term
+        if t.op != "br" or "cond" not in t.d or t["t"] == t.get("f"):
+            continue
+        if X in pd.get(b.id, ()) and X != b.id:
+            continue            # X post-dominates the branch: not dependent on it
+        for truth, s_ in ((True, t["t"]), (False, t["f"])):
+            if s_ == X or X in pd.get(s_, ()):
+                out.append((Guard(t["cond"], t), truth))
+    return out
